@@ -246,4 +246,45 @@ def afterStepGen (d : AfterLoop) (isWord : Char → Bool) (lower : List Char →
   | .ok none => .ok []
   | .ok (some sel) => .ok (if d.discardsSelf then sel.filter (fun j => j != i) else sel)
 
+/-! ## `select_tasks_by_marks_and_expressions` from `deselectSteps` -/
+
+/-- Does task `i` stay selected under one deselection step, given the selection set its function returned?
+`"isNotNone"`: `None` (option not given) keeps everything, a set — the empty one included — keeps its members.
+`"truthy"` (`if remaining:`): the empty set is skipped like `None`. A mark other than `skip` deselects nothing. -/
+def keptByGen (d : Deselect) (r : Option (List Nat)) (i : Nat) : Bool :=
+  if d.markName != "skip" then true else
+  match r with
+  | none => true
+  | some sel =>
+    match d.guard with
+    | "isNotNone" => sel.contains i
+    | "truthy" => sel.isEmpty || sel.contains i
+    | _ => false
+
+def selectFnGen (name : String) (isWord : Char → Bool) (lower : List Char → List Char) (kexpr mexpr : List Char)
+    (tasks : List TaskInfo) : Except CErr (Option (List Nat)) :=
+  match name with
+  | "select_by_keyword" => selectGen selKeyword isWord lower kexpr tasks
+  | "select_by_mark" => selectGen selMark isWord lower mexpr tasks
+  | _ => .error .fuel
+
+/-- All selections are evaluated first (the first malformed expression aborts). -/
+def evalSelections (isWord : Char → Bool) (lower : List Char → List Char) (kexpr mexpr : List Char) (tasks : List TaskInfo) :
+    List Deselect → Except CErr (List (Deselect × Option (List Nat)))
+  | [] => .ok []
+  | d :: ds =>
+    match selectFnGen d.selectFn isWord lower kexpr mexpr tasks with
+    | .error e => .error e
+    | .ok r =>
+      match evalSelections isWord lower kexpr mexpr tasks ds with
+      | .error e => .error e
+      | .ok rs => .ok ((d, r) :: rs)
+
+/-- Indices of the tasks no step deselects. -/
+def selectProjectGen (steps : List Deselect) (isWord : Char → Bool) (lower : List Char → List Char) (kexpr mexpr : List Char)
+    (tasks : List TaskInfo) : Except CErr (List Nat) :=
+  match evalSelections isWord lower kexpr mexpr tasks steps with
+  | .error e => .error e
+  | .ok rs => .ok ((List.range tasks.length).filter (fun i => rs.all (fun p => keptByGen p.1 p.2 i)))
+
 end Pytask.SelExpr.Gen
